@@ -31,4 +31,22 @@ func init() {
 		Shards: [2]int{16, 16}, MinEvals: [2]int{1500, 5000},
 		RequirePositive: "cmp:", RequireCount: 61,
 	})
+	reg(&propCfg{
+		ID: "C04", Level: "exploration",
+		Rule: "61 indicators and all strategies (registry rows at default and random configurations, And/Or/Majority/Split/MACD-RSI, decorators, nested) x configurations x series classes: (i) prefix law - for cut m the run on s[0:m] must equal, bit for bit, the corresponding prefix of the run on s (sampled cuts {0, w, w+1, n-1, 3 random} on n = 2w+8 / 2w_s+30, and ALL cuts 0..n on series of length <= 48); (ii) suffix law - replacing s[m:] (x1024, x1/1024, x2, x1/2, random per-bar factors) must not change any output for a position < m. distinct_nontrivial counts distinct (pipeline, configuration, class, n) cases (strategies: with at least one non-Hold action).",
+		Shards: [2]int{16, 16}, MinEvals: [2]int{800, 4000},
+		RequirePositive: "cmp:", RequireCount: 61,
+	})
+	reg(&propCfg{
+		ID: "C15", Level: "exploration",
+		Rule: "the 20 indicators named by the property x (default + seeded random period configurations) x 11 valid-OHLCV series classes chosen to be hostile (flat stretches, plateaus, ties, limit-up/down runs, close==high/low, zero-volume and zero-range bars, monotone runs, an outlier bar) x lengths 60-400 x replicas: every emitted value is passed through an invariant monitor (range [0,100] / [-100,0] / [0,1] / [-1,1] with slack 1e-6 of the range; upper >= middle >= lower and moving min <= value <= moving max and >= 0 with slack 1e-9 of the price scale). Positions whose defining denominator is zero, and non-finite values after the first such position, are exempt and counted. distinct_nontrivial counts distinct (indicator, configuration, class) triples with at least one checked value.",
+		Shards: [2]int{16, 16}, MinEvals: [2]int{1000, 10000},
+		RequirePositive: "cmp:", RequireCount: 20,
+	})
+	reg(&propCfg{
+		ID: "C18", Level: "exploration",
+		Rule: "metamorphic relation between two executions of the real code: all prices x 2^a and all volumes x 2^b for (a,b) in {(-4,2),(2,10),(10,-4),(2,0),(0,2)}. For 61 indicators x configurations x series classes x 2 lengths every output value must equal, BIT FOR BIT, the original value x 2^(a*dp+b*dv) (homogeneity degrees of Appendix A); additionally x100 / x0.01 within the 1e-9 tolerance at well-conditioned positions. For all strategies (base at default and random configurations, compounds, decorators) the action sequences must be identical. distinct_nontrivial counts distinct (pipeline, configuration, class) cases (strategies: with at least one non-Hold action).",
+		Shards: [2]int{16, 16}, MinEvals: [2]int{1000, 5000},
+		RequirePositive: "cmp:", RequireCount: 61,
+	})
 }
